@@ -410,3 +410,22 @@ Definition ir_mon_step (interval : nat) (m : ir_mon) (e : ev) : option ir_mon :=
   end.
 
 Definition ir_accepts (interval : nat) (h : list ev) : bool := accepts (ir_mon_step interval) ir_mon0 h.
+
+(* ------------------------------------------------------------------ SingleFlight under a FORCED schedule
+   The driver lets every started call run until it is blocked before it does anything else.  So a
+   call invoked while an execution of its key is running (its KBegin seen, its KEnd not yet: the
+   flight is registered throughout) has certainly found that flight: it is a follower and must be
+   served by it -- it must not execute fn itself, whatever the leader's fn returns (a value, nil,
+   an error wrapping context.Canceled / DeadlineExceeded, a panic).  Not valid for free-running
+   histories (a call may reach its lookup late), hence not part of sf_mon_step. *)
+Fixpoint sf_forced_ok (h : list ev) (running : list nat) (must : list nat) : bool :=
+  match h with
+  | [] => true
+  | e :: r =>
+      match e_k e with
+      | KInv => sf_forced_ok r running (if existsb (Nat.eqb (e_a e)) running then e_t e :: must else must)
+      | KBegin => if existsb (Nat.eqb (e_t e)) must then false else sf_forced_ok r (e_a e :: running) must
+      | KEnd => sf_forced_ok r (remove_one (e_a e) running) must
+      | KRet => sf_forced_ok r running (filter (fun u => negb (Nat.eqb u (e_t e))) must)
+      end
+  end.
